@@ -1,5 +1,547 @@
 import QModel.Core
-/-! C19 — model (not built yet) -/
+/-!
+# C19 — analytical error formulas (model of quara/utils/matrix_util.py:299-625, the analytical
+part of quara/protocol/qtomography/standard/standard_qtomography.py:257-476,
+standard_povmt.py:107-161 and the statistics helpers of quara/data_analysis/data_analysis.py)
+
+The model mirrors the code as it is:
+* `covMat`                = `calc_covariance_mat` / `calc_covariance_matrix_of_prob_dist`  (`(diag q − q qᵀ)/n`);
+* `dsCheck`/`directSum`   = `calc_direct_sum`: zero matrix of size Σ rows, blocks copied at the running index;
+  the code's squareness test compares `shape[0]` with itself, so a `k×1` block is accepted and broadcast,
+  any other non-square block ends in numpy's broadcast error (mirrored);
+* `conjugate`             = `calc_conjugate` (`(x @ v) @ x.T`);
+* `leftInv`               = `calc_left_inv` with `rank` and `pinv(AᵀA)` as parameters (numpy kernels);
+* `replaceProbDist`, `validate`, `fisher`, `fisherTotal` = the functions of the same name, including
+  `matrix_size = prob_dists[0].shape[0]` of `calc_fisher_matrix_total` (outcome count used as matrix size);
+* `se`, `mseProbDists`    = `calc_se`, `calc_mse_prob_dists` (mean and *variance* with ddof = 1; the square
+  root is taken by the harness);
+* `mseLinearVar`, `mseLinearPovmQop`, `mseEmpi`, `fisherQt`, `crb`, `crbPovm` = the StandardQTomography
+  methods with the tomography's `matA`, `vecB`, `A⁺`, `F⁻¹` handed in;
+* the multinomial law is the finite distribution `expectN p n` (draw one sample, then `n` more),
+  `expectJoint` its product over schedules.
+-/
 namespace QM.C19
-def handle (_args : List String) : Option String := none
+open QM
+
+/-! ## covariance, direct sum, conjugation -/
+section alg
+variable {K : Type}
+
+/-- `calc_covariance_mat(q, n)`: `(np.diag(q) - qᵀq) / n`. -/
+def covMat [Sub K] [Mul K] [Div K] [Zero K] {m : Nat} (q : Vec K m) (n : K) : Mat K m m :=
+  Mat.ofFn fun i j => ((if i = j then q.get i else 0) - q.get i * q.get j) / n
+
+/-- a square block together with its size -/
+abbrev Block (K : Type) := (k : Nat) × Mat K k k
+
+def dsSize : List (Block K) → Nat
+  | [] => 0
+  | b :: r => b.1 + dsSize r
+
+/-- entry `(i,j)` of the direct sum: zeros, then every block copied at the running index
+(`matrix[index:index+size, index:index+size] = diag; index += size`). -/
+def dsEntry [Zero K] : List (Block K) → Nat → Nat → K
+  | [], _, _ => 0
+  | ⟨k, B⟩ :: r, i, j =>
+    if h : i < k ∧ j < k then B.get ⟨i, h.1⟩ ⟨j, h.2⟩
+    else if k ≤ i ∧ k ≤ j then dsEntry r (i - k) (j - k)
+    else 0
+
+/-- `calc_direct_sum` on square blocks. -/
+def directSum [Zero K] (bs : List (Block K)) : Mat K (dsSize bs) (dsSize bs) :=
+  Mat.ofFn fun i j => dsEntry bs i.val j.val
+
+/-- a general 2-d array `rows × cols` as handed to `calc_direct_sum` -/
+abbrev RBlock (K : Type) := (k : Nat) × (l : Nat) × Mat K k l
+
+inductive Err
+  | negative | sumNotOne | sizeMismatch | epsNonPos | broadcast | rank | weightNeg | empty
+  | ragged | shape
+deriving Repr, DecidableEq
+
+def Err.toString : Err → String
+  | .negative => "negative" | .sumNotOne => "sumNotOne" | .sizeMismatch => "sizeMismatch"
+  | .epsNonPos => "epsNonPos" | .broadcast => "broadcast" | .rank => "rank"
+  | .weightNeg => "weightNeg" | .empty => "empty" | .ragged => "ragged" | .shape => "shape"
+
+/-- what the slice assignment of `calc_direct_sum` does with one 2-d block: a square block is copied,
+a `k×1` block is broadcast along the columns (the squareness test of the code is vacuous),
+everything else is numpy's broadcast `ValueError`. -/
+def dsCheckOne : RBlock K → Except Err (Block K)
+  | ⟨k, l, B⟩ =>
+    if h : l = k then .ok ⟨k, h ▸ B⟩
+    else if h1 : l = 1 then .ok ⟨k, Mat.ofFn fun i _ => B.get i ⟨0, by omega⟩⟩
+    else .error .broadcast
+
+def dsCheck (bs : List (RBlock K)) : Except Err (List (Block K)) := bs.mapM dsCheckOne
+
+/-- `calc_conjugate(x, v) = x @ v @ x.T` -/
+def conjugate [Add K] [Mul K] [Zero K] {k n : Nat} (X : Mat K k n) (V : Mat K n n) : Mat K k k :=
+  (X.mul V).mul X.transpose
+
+/-- `calc_left_inv(matrix)`: `rank = matrix_rank(matrix)` and `G = pinv(matrix.T @ matrix)` are the numpy
+kernels' results; `ValueError` when `min(shape) ≠ rank`. -/
+def leftInv [Add K] [Mul K] [Zero K] {m n : Nat} (A : Mat K m n) (rank : Nat) (G : Mat K n n) :
+    Except Err (Mat K n m) :=
+  if min m n ≠ rank then .error .rank else .ok (G.mul A.transpose)
+
+/-- `calc_covariance_mat_total` / `StandardQTomography.calc_covariance_mat_total`: one covariance block per
+(sample size, distribution). -/
+def covBlocks [Sub K] [Mul K] [Div K] [Zero K] :
+    List ((m : Nat) × Vec K m × K) → List (Block K)
+  | [] => []
+  | ⟨m, q, n⟩ :: r => ⟨m, covMat q n⟩ :: covBlocks r
+
+end alg
+
+/-! ## probabilities: validation, replacement, Fisher matrix (lists, as the code iterates) -/
+section fisher
+variable {K : Type} [Add K] [Sub K] [Mul K] [Div K] [Neg K] [Zero K] [One K] [NatCast K]
+  [LT K] [DecidableLT K] [LE K] [DecidableLE K]
+
+def kabs (x : K) : K := if x < 0 then -x else x
+
+/-- `validate_prob_dist(prob_dist, eps)` (sum check on) -/
+def validate (ps : List K) (eps : K) : Except Err Unit :=
+  if ps.any (fun p => decide (p < 0) && !decide (kabs p ≤ eps)) then .error .negative
+  else if !decide (kabs (lsum ps - 1) ≤ eps) then .error .sumNotOne
+  else .ok ()
+
+/-- `replace_prob_dist(prob_dist, eps)` -/
+def replaceProbDist (ps : List K) (eps : K) : List K :=
+  let size : Nat := ps.length
+  let cnt : Nat := (ps.filter fun p => decide (p < eps)).length
+  ps.map fun p => if p < eps then eps else p - (eps * (cnt : K)) / ((size - cnt : Nat) : K)
+
+/-- `Σ_x outer(g_x, g_x) / prob_x` as a list of rows of length `sv` -/
+def fisherRaw (sv : Nat) (probs : List K) (grads : List (List K)) : List (List K) :=
+  (List.range sv).map fun a => (List.range sv).map fun b =>
+    lsum ((probs.zip grads).map fun (pr, g) => (g.getD a 0) * (g.getD b 0) / pr)
+
+/-- `matrix_util.calc_fisher_matrix(prob_dist, grad_prob_dist, eps)`; `eps` already resolved
+(`None ↦ 1e-8`). Order of checks as in the code. Ragged gradient lists are outside the model (`ragged`). -/
+def fisher (ps : List K) (grads : List (List K)) (eps : K) : Except Err (Nat × List (List K)) := do
+  validate ps eps
+  if ps.length ≠ grads.length then throw .sizeMismatch
+  if eps ≤ 0 then throw .epsNonPos
+  let rep := replaceProbDist ps eps
+  match grads with
+  | [] => throw .empty
+  | g0 :: _ =>
+    let sv := g0.length
+    if grads.any (fun g => g.length ≠ sv) then throw .ragged
+    return (sv, fisherRaw sv rep grads)
+
+def zeroRows (k : Nat) : List (List K) := (List.range k).map fun _ => (List.range k).map fun _ => (0 : K)
+
+def addRows (A B : List (List K)) : List (List K) := (A.zip B).map fun (r, s) => (r.zip s).map fun (x, y) => x + y
+
+/-- numpy's `matrix += w * F` for a `size×size` accumulator and an `sv×sv` term: same shape adds,
+a `1×1` term is broadcast over the whole accumulator, anything else is the broadcast `ValueError`. -/
+def accumulate (size : Nat) (acc : List (List K)) (w : K) (sv : Nat) (F : List (List K)) :
+    Except Err (List (List K)) :=
+  if sv = size then .ok (addRows acc (F.map fun r => r.map fun x => w * x))
+  else if sv = 1 then
+    let x := w * ((F.getD 0 []).getD 0 0)
+    .ok (acc.map fun r => r.map fun y => y + x)
+  else .error .broadcast
+
+/-- `matrix_util.calc_fisher_matrix_total`. The second size test of the code repeats the first one
+(the number of weights is never compared), weights are validated completely before anything is
+computed, and the accumulator has the size of the *first probability distribution*. -/
+def fisherTotal (pss : List (List K)) (gradss : List (List (List K))) (ws : List K) (eps : K) :
+    Except Err (Nat × List (List K)) := do
+  if pss.length ≠ gradss.length then throw .sizeMismatch
+  if ws.any (fun w => decide (w < 0)) then throw .weightNeg
+  match pss with
+  | [] => throw .empty
+  | p0 :: _ =>
+    let size := p0.length
+    let mut acc : List (List K) := zeroRows size
+    let mut idx : Nat := 0
+    for (ps, grads) in pss.zip gradss do
+      -- `weights[index]` : IndexError when there are fewer weights than distributions
+      match ws[idx]? with
+      | none => throw .sizeMismatch
+      | some w =>
+        let (sv, F) ← fisher ps grads eps
+        acc ← accumulate size acc w sv F
+      idx := idx + 1
+    return (size, acc)
+
+end fisher
+
+/-! ## sample statistics helpers -/
+section stats
+variable {K : Type} [Add K] [Sub K] [Mul K] [Div K] [Zero K] [NatCast K]
+
+/-- `np.vdot(x - y, x - y)` for real arrays; `zip` truncates like Python's. -/
+def sqDist (x y : List K) : K := lsum ((x.zip y).map fun (a, b) => (a - b) * (a - b))
+
+/-- `calc_se(xs, ys)` -/
+def se (xs ys : List (List K)) : K := lsum ((xs.zip ys).map fun (x, y) => sqDist x y)
+
+def mean (l : List K) : K := lsum l / (l.length : K)
+
+/-- square of `np.std(l, ddof=1)` -/
+def varDdof1 (l : List K) : K :=
+  lsum (l.map fun x => (x - mean l) * (x - mean l)) / ((l.length - 1 : Nat) : K)
+
+/-- `calc_mse_prob_dists(xs_list, ys_list)`: (mean, std²) of the per-repetition squared errors -/
+def mseProbDists (xsl ysl : List (List (List K))) : K × K :=
+  let ses := (xsl.zip ysl).map fun (xs, ys) => se xs ys
+  (mean ses, varDdof1 ses)
+
+end stats
+
+/-! ## the StandardQTomography formulas -/
+section qt
+variable {K : Type} [Add K] [Sub K] [Mul K] [Div K] [Zero K] [One K]
+
+/-- `_calc_mse_linear_analytical_mode_var`: `trace(A⁺ · (⊕_s Cov_s) · A⁺ᵀ)` -/
+def mseLinearVar (bs : List (Block K)) {k : Nat} (Ainv : Mat K k (dsSize bs)) : K :=
+  (conjugate Ainv (directSum bs)).trace
+
+/-- `StandardPovmt._generate_matS`: `np.hstack([I_{d2}] * (num_outcomes − 1))` -/
+def matS (d2 mo : Nat) : Mat K d2 ((mo - 1) * d2) :=
+  Mat.ofFn fun a j => if j.val % d2 = a.val then 1 else 0
+
+/-- `StandardPovmt._calc_mse_linear_analytical_mode_qoperation` for `on_para_eq_constraint = True`:
+first term + `trace(S · Cov_lin · Sᵀ)`; `ValueError` (shape) when `S` and the covariance do not fit. -/
+def mseLinearPovmQop (bs : List (Block K)) {k : Nat} (Ainv : Mat K k (dsSize bs)) (d2 mo : Nat) :
+    Except Err K :=
+  if h : k = (mo - 1) * d2 then
+    let covLin : Mat K ((mo - 1) * d2) ((mo - 1) * d2) := h ▸ conjugate Ainv (directSum bs)
+    .ok (mseLinearVar bs Ainv + (conjugate (matS d2 mo) covLin).trace)
+  else .error .shape
+
+/-- `calc_mse_empi_dists_analytical`: `Σ_s trace(Cov_s)` accumulated from `0.0` -/
+def mseEmpi : List (Block K) → K
+  | [] => 0
+  | ⟨_, B⟩ :: r => B.trace + mseEmpi r
+
+end qt
+
+section qtfisher
+variable {K : Type} [Add K] [Sub K] [Mul K] [Div K] [Neg K] [Zero K] [One K] [NatCast K]
+  [LT K] [DecidableLT K] [LE K] [DecidableLE K]
+
+/-- `StandardQTomography.calc_fisher_matrix(j, var)`: `size_prob_dist = int(len(matA) / num_schedules)`,
+rows `size·j … size·(j+1)` of `matA`/`vecB` (slices clip silently like Python's), default eps `1e-8`. -/
+def fisherQt (matA : List (List K)) (vecB : List K) (numSched j : Nat) (var : List K) (eps : K) :
+    Except Err (Nat × List (List K)) :=
+  let size := matA.length / numSched
+  let rows := (matA.drop (size * j)).take size
+  let bsl := (vecB.drop (size * j)).take size
+  let ps := (rows.zip bsl).map fun (r, b) => lsum ((r.zip var).map fun (a, v) => a * v) + b
+  fisher ps rows eps
+
+/-- `calc_fisher_matrix_total(var, weights)`: python `sum([...])` of `weights[j] * F_j` -/
+def fisherQtTotal (matA : List (List K)) (vecB : List K) (numSched : Nat) (var : List K)
+    (ws : List K) (eps : K) : Except Err (Nat × List (List K)) := do
+  let mut acc : Option (Nat × List (List K)) := none
+  for j in List.range numSched do
+    match ws[j]? with
+    | none => throw .sizeMismatch
+    | some w =>
+      let (sv, F) ← fisherQt matA vecB numSched j var eps
+      let wF := F.map fun r => r.map fun x => w * x
+      acc := match acc with
+        | none => some (sv, wF)
+        | some (s, A) => some (s, addRows A wF)
+  match acc with
+  | none => throw .empty
+  | some r => return r
+
+end qtfisher
+
+section crb
+variable {K : Type} [Add K] [Mul K] [Div K] [Zero K] [One K]
+
+/-- `_calc_cramer_rao_bound`: `trace(inv(F)) / N`, `Finv = np.linalg.inv(fisher)` handed in -/
+def crb {nv : Nat} (Finv : Mat K nv nv) (N : K) : K := Finv.trace / N
+
+/-- `StandardPovmt.calc_cramer_rao_bound` for `on_para_eq_constraint = True` -/
+def crbPovm (d2 mo : Nat) (Finv : Mat K ((mo - 1) * d2) ((mo - 1) * d2)) (N : K) : K :=
+  crb Finv N + (conjugate (matS d2 mo) Finv).trace / N
+
+end crb
+
+/-! ## the multinomial law as a finite distribution -/
+section law
+variable {K : Type}
+
+/-- one more observation of outcome `i` -/
+def bump {m : Nat} (c : Vec Nat m) (i : Fin m) : Vec Nat m :=
+  Vec.ofFn fun j => if j = i then c.get j + 1 else c.get j
+
+/-- expectation of `g(counts)` when `counts ~ Multinomial(n, p)`:
+`E_0 g = g 0`, `E_{n+1} g = Σ_i p_i · E_n (g ∘ (· + e_i))`. -/
+def expectN [Add K] [Mul K] [Zero K] {m : Nat} (p : Vec K m) : Nat → (Vec Nat m → K) → K
+  | 0, g => g (Vec.ofFn fun _ => 0)
+  | n + 1, g => fsum m fun i => p.get i * expectN p n (fun c => g (bump c i))
+
+/-- empirical distribution `counts / n` -/
+def empi [Div K] [NatCast K] {m : Nat} (c : Vec Nat m) (n : Nat) : Vec K m :=
+  Vec.ofFn fun i => (c.get i : K) / (n : K)
+
+/-- exact covariance of the empirical distribution: `E[(f − p)(f − p)ᵀ]` -/
+def covExact [Add K] [Sub K] [Mul K] [Div K] [Zero K] [NatCast K] {m : Nat} (p : Vec K m) (n : Nat) :
+    Mat K m m :=
+  Mat.ofFn fun i j => expectN p n fun c =>
+    ((empi (K := K) c n).get i - p.get i) * ((empi (K := K) c n).get j - p.get j)
+
+/-- squared Euclidean norm -/
+def normSq [Add K] [Mul K] [Zero K] {k : Nat} (v : Vec K k) : K := v.dot v
+
+/-- exact mean squared error of the empirical distribution: `E ‖f − p‖²` -/
+def mseEmpiExact [Add K] [Sub K] [Mul K] [Div K] [Zero K] [NatCast K] {m : Nat} (p : Vec K m) (n : Nat) : K :=
+  expectN p n fun c => normSq ((empi (K := K) c n).sub p)
+
+/-- product law over schedules with a common outcome count `m`:
+expectation of `g (counts of schedule 0, counts of schedule 1, …)` -/
+def expectJoint [Add K] [Mul K] [Zero K] {m : Nat} :
+    List (Vec K m × Nat) → (List (Vec Nat m) → K) → K
+  | [], g => g []
+  | (p, n) :: r, g => expectN p n fun c => expectJoint r fun cs => g (c :: cs)
+
+/-- error of a linear estimate `Σ_s L_s (f_s − p_s)` (the column blocks `L_s` of `A⁺`) -/
+def linErr [Add K] [Sub K] [Mul K] [Div K] [Zero K] [NatCast K] {m k : Nat} :
+    List (Mat K k m × Vec K m × Nat) → List (Vec Nat m) → Vec K k
+  | (L, p, n) :: r, c :: cs => (L.mulVec ((empi (K := K) c n).sub p)).add (linErr r cs)
+  | _, _ => Vec.zero
+
+/-- exact mean squared error of the linear estimate over the product law -/
+def mseLinearExact [Add K] [Sub K] [Mul K] [Div K] [Zero K] [NatCast K] {m k : Nat}
+    (l : List (Mat K k m × Vec K m × Nat)) : K :=
+  expectJoint (l.map fun x => (x.2.1, x.2.2)) fun cs => normSq (linErr l cs)
+
+end law
+
+/-! ## driver -/
+
+def mkMat (r c : Nat) (l : List Rat) : Option (Mat Rat r c) :=
+  if l.length = r * c then
+    let a := l.toArray
+    some (Mat.ofFn fun i j => a.getD (i.val * c + j.val) 0)  -- in range by the length test above
+  else none
+
+def mkVec (n : Nat) (l : List Rat) : Option (Vec Rat n) :=
+  if l.length = n then
+    let a := l.toArray
+    some (Vec.ofFn fun i => a.getD i.val 0)
+  else none
+
+def matToList {r c : Nat} (A : Mat Rat r c) : List Rat :=
+  (List.finRange r).flatMap fun i => (List.finRange c).map fun j => A.get i j
+
+def showMat {r c : Nat} (A : Mat Rat r c) : String :=
+  s!"ok {r} {c} {showList showRat (matToList A)}"
+
+def showRows (x : Except Err (Nat × List (List Rat))) : String :=
+  match x with
+  | .error e => s!"err {e.toString}"
+  | .ok (n, rows) => s!"ok {n} {n} {showList showRat rows.flatten}"
+
+/-- split a flat list into rows of length `c` -/
+def chunk (c : Nat) (l : List Rat) : Nat → List (List Rat)
+  | 0 => []
+  | r + 1 => l.take c :: chunk c (l.drop c) r
+
+/-- `k r1 c1 flat1 r2 c2 flat2 …` -/
+def parseRBlocks : Nat → List String → Option (List (RBlock Rat) × List String)
+  | 0, rest => some ([], rest)
+  | k + 1, r :: c :: fl :: rest => do
+      let r ← parseNat? r
+      let c ← parseNat? c
+      let fl ← parseList? parseRat? fl
+      let M ← mkMat r c fl
+      let (bs, rest') ← parseRBlocks k rest
+      some (⟨r, c, M⟩ :: bs, rest')
+  | _, _ => none
+
+/-- `k n1 q1 n2 q2 …` (sample size, distribution) -/
+def parseCovArgs : Nat → List String → Option (List ((m : Nat) × Vec Rat m × Rat) × List String)
+  | 0, rest => some ([], rest)
+  | k + 1, n :: qs :: rest => do
+      let n ← parseRat? n
+      let qs ← parseList? parseRat? qs
+      let v ← mkVec qs.length qs
+      let (l, rest') ← parseCovArgs k rest
+      some (⟨qs.length, v, n⟩ :: l, rest')
+  | _, _ => none
+
+def parseLists : Nat → List String → Option (List (List Rat) × List String)
+  | 0, rest => some ([], rest)
+  | k + 1, x :: rest => do
+      let x ← parseList? parseRat? x
+      let (l, rest') ← parseLists k rest
+      some (x :: l, rest')
+  | _, _ => none
+
+/-- `k  (cnt_1 list…)  …  (cnt_k list…)` -/
+def parseListLists : Nat → List String → Option (List (List (List Rat)) × List String)
+  | 0, rest => some ([], rest)
+  | k + 1, cnt :: rest => do
+      let cnt ← parseNat? cnt
+      let (x, rest') ← parseLists cnt rest
+      let (l, rest'') ← parseListLists k rest'
+      some (x :: l, rest'')
+  | _, _ => none
+
+/-- joint law arguments with a common outcome count `m` and estimate size `k`:
+`S  n_1 p_1 L_1  …` (`L_s` flat `k×m`) -/
+def parseJoint (m k : Nat) : Nat → List String → Option (List (Mat Rat k m × Vec Rat m × Nat))
+  | 0, [] => some []
+  | s + 1, n :: p :: L :: rest => do
+      let n ← parseNat? n
+      let p ← parseList? parseRat? p
+      let p ← mkVec m p
+      let L ← parseList? parseRat? L
+      let L ← mkMat k m L
+      let r ← parseJoint m k s rest
+      some ((L, p, n) :: r)
+  | _, _ => none
+
+def handle (args : List String) : Option String :=
+  match args with
+  | ["cov", qs, n] => do
+      let qs ← parseList? parseRat? qs
+      let n ← parseRat? n
+      let v ← mkVec qs.length qs
+      some (showMat (covMat v n))
+  | "covtot" :: k :: rest => do
+      let k ← parseNat? k
+      let (l, rest') ← parseCovArgs k rest
+      if !rest'.isEmpty then none
+      some (showMat (directSum (covBlocks l)))
+  | "dsum" :: k :: rest => do
+      let k ← parseNat? k
+      let (bs, rest') ← parseRBlocks k rest
+      if !rest'.isEmpty then none
+      match dsCheck bs with
+      | .error e => some s!"err {e.toString}"
+      | .ok sq => some (showMat (directSum sq))
+  | ["conj", k, n, x, v] => do
+      let k ← parseNat? k
+      let n ← parseNat? n
+      let X ← mkMat k n (← parseList? parseRat? x)
+      let V ← mkMat n n (← parseList? parseRat? v)
+      some (showMat (conjugate X V))
+  | ["leftinv", m, n, a, rank, g] => do
+      let m ← parseNat? m
+      let n ← parseNat? n
+      let A ← mkMat m n (← parseList? parseRat? a)
+      let rank ← parseNat? rank
+      let G ← mkMat n n (← parseList? parseRat? g)
+      match leftInv A rank G with
+      | .error e => some s!"err {e.toString}"
+      | .ok L => some (showMat L)
+  | ["replace", ps, eps] => do
+      let ps ← parseList? parseRat? ps
+      let eps ← parseRat? eps
+      some s!"ok {showList showRat (replaceProbDist ps eps)}"
+  | "fisher" :: ps :: eps :: k :: rest => do
+      let ps ← parseList? parseRat? ps
+      let eps ← parseRat? eps
+      let k ← parseNat? k
+      let (grads, rest') ← parseLists k rest
+      if !rest'.isEmpty then none
+      some (showRows (fisher ps grads eps))
+  | "fishertot" :: eps :: ws :: k :: rest => do
+      let eps ← parseRat? eps
+      let ws ← parseList? parseRat? ws
+      let k ← parseNat? k
+      let (pss, rest') ← parseLists k rest
+      let kg ← parseNat? (← rest'.head?)
+      let (gradss, rest'') ← parseListLists kg rest'.tail
+      if !rest''.isEmpty then none
+      some (showRows (fisherTotal pss gradss ws eps))
+  | "se" :: k :: rest => do
+      let k ← parseNat? k
+      let (xs, rest') ← parseLists k rest
+      let k2 ← parseNat? (← rest'.head?)
+      let (ys, rest'') ← parseLists k2 rest'.tail
+      if !rest''.isEmpty then none
+      some s!"ok {showRat (se xs ys)}"
+  | "mseprob" :: k :: rest => do
+      let k ← parseNat? k
+      let (xsl, rest') ← parseListLists k rest
+      let k2 ← parseNat? (← rest'.head?)
+      let (ysl, rest'') ← parseListLists k2 rest'.tail
+      if !rest''.isEmpty then none
+      let (mu, v) := mseProbDists xsl ysl
+      some s!"ok {showRat mu} {showRat v}"
+  | "mselin" :: mode :: d2 :: mo :: kk :: ainv :: k :: rest => do
+      -- mode: var | povmq ; Ainv flat kk × (Σ outcome counts)
+      let d2 ← parseNat? d2
+      let mo ← parseNat? mo
+      let kk ← parseNat? kk
+      let k ← parseNat? k
+      let (l, rest') ← parseCovArgs k rest
+      if !rest'.isEmpty then none
+      let bs := covBlocks l
+      let Ainv ← mkMat kk (dsSize bs) (← parseList? parseRat? ainv)
+      if mode = "var" then some s!"ok {showRat (mseLinearVar bs Ainv)}"
+      else if mode = "povmq" then
+        match mseLinearPovmQop bs Ainv d2 mo with
+        | .error e => some s!"err {e.toString}"
+        | .ok v => some s!"ok {showRat v}"
+      else none
+  | "mseempi" :: k :: rest => do
+      let k ← parseNat? k
+      let (l, rest') ← parseCovArgs k rest
+      if !rest'.isEmpty then none
+      some s!"ok {showRat (mseEmpi (covBlocks l))}"
+  | ["fisherqt", rows, cols, a, b, ns, j, var, eps] => do
+      let rows ← parseNat? rows
+      let cols ← parseNat? cols
+      let a ← parseList? parseRat? a
+      if a.length ≠ rows * cols then none
+      let b ← parseList? parseRat? b
+      let ns ← parseNat? ns
+      let j ← parseNat? j
+      let var ← parseList? parseRat? var
+      let eps ← parseRat? eps
+      some (showRows (fisherQt (chunk cols a rows) b ns j var eps))
+  | ["fisherqttot", rows, cols, a, b, ns, ws, var, eps] => do
+      let rows ← parseNat? rows
+      let cols ← parseNat? cols
+      let a ← parseList? parseRat? a
+      if a.length ≠ rows * cols then none
+      let b ← parseList? parseRat? b
+      let ns ← parseNat? ns
+      let ws ← parseList? parseRat? ws
+      let var ← parseList? parseRat? var
+      let eps ← parseRat? eps
+      some (showRows (fisherQtTotal (chunk cols a rows) b ns var ws eps))
+  | ["crb", nv, finv, n] => do
+      let nv ← parseNat? nv
+      let F ← mkMat nv nv (← parseList? parseRat? finv)
+      let n ← parseRat? n
+      some s!"ok {showRat (crb F n)}"
+  | ["crbpovm", d2, mo, finv, n] => do
+      let d2 ← parseNat? d2
+      let mo ← parseNat? mo
+      let F ← mkMat ((mo - 1) * d2) ((mo - 1) * d2) (← parseList? parseRat? finv)
+      let n ← parseRat? n
+      some s!"ok {showRat (crbPovm d2 mo F n)}"
+  | ["enumcov", ps, n] => do
+      let ps ← parseList? parseRat? ps
+      let n ← parseNat? n
+      let v ← mkVec ps.length ps
+      some (showMat (covExact v n))
+  | ["enummseempi", ps, n] => do
+      let ps ← parseList? parseRat? ps
+      let n ← parseNat? n
+      let v ← mkVec ps.length ps
+      some s!"ok {showRat (mseEmpiExact v n)}"
+  | "enummselin" :: m :: k :: s :: rest => do
+      let m ← parseNat? m
+      let k ← parseNat? k
+      let s ← parseNat? s
+      let l ← parseJoint m k s rest
+      some s!"ok {showRat (mseLinearExact l)}"
+  | _ => none
+
 end QM.C19
